@@ -1080,6 +1080,32 @@ fn gen_history(h: &mut H, rng: &mut Rng, out: &mut Out) {
     }
 }
 
+/// thorough tier: every sequence of at most 5 replies over 3 peers x 2 versions, under quorum 2 and majority,
+/// ended by each kind of terminating event
+fn exhaustive(h: &mut H, out: &mut Out) {
+    let symbols: Vec<(u64, &str)> = vec![(1, "hc0"), (2, "hc0"), (3, "hc0"), (1, "hc1"), (2, "hc1"), (3, "hc1")];
+    for quorum in ["n2", "majority"] {
+        for len in 0..=5u32 {
+            let total = (symbols.len() as u64).pow(len);
+            for code in 0..total {
+                for term in ["finished", "timeout", "notfound", "quorumfailed"] {
+                    run_line(h, out, "reset");
+                    run_line(h, out, &format!("get 0 0 {quorum}"));
+                    run_line(h, out, &format!("get 0 1 {quorum}"));
+                    let mut c = code;
+                    for _ in 0..len {
+                        let (p, v) = symbols[(c % symbols.len() as u64) as usize];
+                        c /= symbols.len() as u64;
+                        run_line(h, out, &format!("found 0 {p} {v}"));
+                    }
+                    run_line(h, out, &format!("{term} 0"));
+                }
+            }
+        }
+    }
+    out.count("exhaustive:histories(<=5 replies, 3 peers x 2 versions, 2 quorums, 4 terminators)");
+}
+
 fn main() {
     std::panic::set_hook(Box::new(|_| {}));
     let args = common::parse_args();
@@ -1104,6 +1130,9 @@ fn main() {
         }
         for _ in 0..args.n {
             gen_history(&mut h, &mut rng, &mut out);
+        }
+        if args.n >= 10000 {
+            exhaustive(&mut h, &mut out);
         }
         h.end_history(&mut out);
         out.notes.push("callers' receivers are alive unless a `hangup` line says otherwise; after a hangup the handler returns InternalMsgChannelDropped and the remaining callers observe a closed channel (still exactly one outcome)".into());
